@@ -44,7 +44,7 @@ def gen_config(rng, nboards=None, rich=True, with_initial=True, max_trains=4):
             nums = rng.sample(range(256), rng.randrange(0, 5))
             bd['features'] = [(n, rng.randrange(256)) for n in nums]
             if rng.random() < 0.4 and 3 not in nums:
-                bd['features'].append((3, rng.choice([0, 1, 5])))
+                bd['features'].insert(rng.randrange(len(bd['features']) + 1), (3, rng.choice([0, 1, 5])))
         numbers = rng.sample(range(128), 12)
         ports = rng.sample(range(0x10000), 6)
 
